@@ -15,7 +15,7 @@
    termination of its callbacks, and it does not read options['statementCount']; both proved for the modelled library. *)
 From Coq Require Import List.
 From BS Require Import Model.Base Model.Num Model.Arith Model.ExprParser Model.Script Model.Interp Model.LibCore Model.RunC01
-                       Model.ScriptX Model.Lower Proofs.Fuel Proofs.C01 Proofs.C01b Proofs.C01c Proofs.C01d Proofs.Blind Proofs.C07 Proofs.C09 Proofs.C01lim Model.LibAll Proofs.LibAll.
+                       Model.ScriptX Model.Lower Proofs.Fuel Proofs.C01 Proofs.C01b Proofs.C01c Proofs.C01d Proofs.Blind Proofs.C07 Proofs.C09 Proofs.C01lim Model.LibAll Model.LibPartial Proofs.LibAll Proofs.LibPartial.
 
 Lemma real_lab_inj : forall k n k' n', real_lab k n = real_lab k' n' -> k = k' /\ n = n'.
 Proof.
@@ -97,12 +97,13 @@ Proof. intros cfg. split; [exact (libcore_fuel_monotone cfg)|exact (libcore_coun
 Print Assumptions C01_premises_hold_for_modelled_library.
 
 (* ... and for the COMBINED library the check runs (Model/LibAll.v: LibCore overlaid with the lifted array / object / string
-   functions of Model/LibSeq.v, and arraySort of Model/LibCall.v, which CALLS BACK into script code): all four premises *)
+   functions of Model/LibSeq.v, arraySort of Model/LibCall.v, which CALLS BACK into script code, and systemPartial closures of
+   Model/LibPartial.v, whose call is one raw call through the callback): all four premises *)
 Theorem C01_premises_hold_for_combined_library : forall cfg,
-  lib_fuel_monotone (libfull cfg) /\ lib_count_blind (libfull cfg) /\ lib_monotone (libfull cfg) /\ lib_lockstep (libfull cfg) cfg.
+  lib_fuel_monotone (libfull2 cfg) /\ lib_count_blind (libfull2 cfg) /\ lib_monotone (libfull2 cfg) /\ lib_lockstep (libfull2 cfg) cfg.
 Proof.
-  intros cfg. split; [exact (libfull_fuel_monotone cfg)|]. split; [exact (libfull_count_blind cfg)|].
-  split; [exact (libfull_monotone cfg)|exact (libfull_lockstep cfg)].
+  intros cfg. split; [exact (libfull2_fuel_monotone cfg)|]. split; [exact (libfull2_count_blind cfg)|].
+  split; [exact (libfull2_monotone cfg)|exact (libfull2_lockstep cfg)].
 Qed.
 Print Assumptions C01_premises_hold_for_combined_library.
 
@@ -239,11 +240,11 @@ Proof.
 Qed.
 Print Assumptions C01_for_premises_hold_for_modelled_library.
 
-(* ... and for the combined library the check runs (LibCore + arraySort with callbacks + lifted LibSeq) *)
+(* ... and for the combined library the check runs (LibCore + arraySort with callbacks + lifted LibSeq + systemPartial closures) *)
 Theorem C01_for_premises_hold_for_combined_library : forall cfg,
-  lib_fuel_monotone (libfull cfg) /\ lib_count_blind (libfull cfg) /\ arrayLength_contract (libfull cfg) /\ arrayGet_contract (libfull cfg).
+  lib_fuel_monotone (libfull2 cfg) /\ lib_count_blind (libfull2 cfg) /\ arrayLength_contract (libfull2 cfg) /\ arrayGet_contract (libfull2 cfg).
 Proof.
-  intros cfg. split; [exact (libfull_fuel_monotone cfg)|split; [exact (libfull_count_blind cfg)|split; [exact (libfull_arrayLength cfg)|exact (libfull_arrayGet cfg)]]].
+  intros cfg. split; [exact (libfull2_fuel_monotone cfg)|split; [exact (libfull2_count_blind cfg)|split; [exact (libfull2_arrayLength cfg)|exact (libfull2_arrayGet cfg)]]].
 Qed.
 Print Assumptions C01_for_premises_hold_for_combined_library.
 
